@@ -96,6 +96,10 @@ func (m *Machine) fallback(extra []*Term, wantModel bool) (Verdict, map[string]u
 		argv  []string
 		logic string
 	}{
+		// a fresh z3 5.1.0 without the incremental context and with a long
+		// limit decides most queries the 3 s incremental call gave up on
+		// (a loaded machine is the usual reason)
+		{[]string{"z3-new", "-in", fmt.Sprintf("-T:%d", tl/1500+1)}, ""},
 		{[]string{"z3", "-in", fmt.Sprintf("-T:%d", tl/3000+1)}, ""},
 		{[]string{"cvc5", "--lang=smt2", "--solve-bv-as-int=sum", fmt.Sprintf("--tlimit=%d", tl)}, "ALL"},
 	}
